@@ -54,6 +54,7 @@ if hasattr(rules_types, "run_sentineluse"):
 run("RESETSAME", rules_layout.run_resetsame, {}, 20)
 run("CONVFAILOK", rules_layout.run_convfailok, {}, 50)
 run("TYPEIDDEST", rules_layout.run_typeiddest, {}, 12)
+run("TYPEIDNAME", rules_layout.run_typeidname, {}, 5)
 run("ENDDEREF", rules_types.run_endderef, {}, 15, indirs)
 run("SHIFTKEEP", rules_lin.run_shiftkeep, {}, 3)
 run("ROOMCODE", rules_path.run_roomcode, {"files": P["C03"]}, 4)
